@@ -28,8 +28,7 @@ def ctl : OpK → Ctl
 
 /-- consistency of a table row: the check function it carries (recognised by its dynamic immediate) is the one that
     belongs to its evalFunc; ops that never move the pc have none -/
-def specWF (s : Spec) : Bool :=
-  match opKind s.fn with
+def specWFk (s : Spec) : Option OpK → Bool
   | none => !s.hasCheck
   | some k =>
     match ctl k with
@@ -40,6 +39,8 @@ def specWF (s : Spec) : Bool :=
     | .br2 => s.hasCheck && checkKind s == some 2 && s.size == 3
     | .brV => s.hasCheck && checkKind s == some 8
     | .sw => s.hasCheck && checkKind s == some 7
+
+def specWF (s : Spec) : Bool := specWFk s (opKind s.fn)
 
 /-- where the body of an op of a given class can send the pc, and what it does to the call stack -/
 def NextOk (cx : Ctx) (m m' : Mach) : Ctl → Prop
@@ -211,14 +212,14 @@ theorem step_preserves_J {sem : Sem} {cfg : Cfg} {prog : List Nat} {v : Nat} {st
   cases hk : opKind s.fn with
   | none =>
     rw [hk] at hex hw
-    simp only [] at hex hw
+    simp only [specWFk] at hex hw
     split at hex
     · injection hex with hex; subst hex
       exact plain (by simpa using hw) hn0 (fun f hf' => ⟨f, hf', rfl⟩)
     · cases hex
   | some k =>
     rw [hk] at hex hw
-    simp only [] at hex hw
+    simp only [specWFk] at hex hw
     have hnx := execK_ctl hex
     cases hc : ctl k with
     | plain =>
